@@ -53,6 +53,10 @@ func genC01Case(t *rapid.T) C01Case {
 	spec := stdSpec()
 	spec.IdP.SignatureAlgorithm = rapid.SampledFrom([]string{world.AlgRSASHA256, world.AlgRSASHA256, world.AlgRSASHA1, "urn:example:unusable-algorithm"}).Draw(t, "sigalg")
 	spec.SPs[1].AuthnRequestsSigned = A // all three SPs accept unsigned requests here
+	big := stdUser(7)
+	big.UserID, big.LoginName = "uid-big", "loginbig@users.example"
+	big.Custom = append(big.Custom, world.CustomAttr{Name: "groups", NameFormat: "urn:oasis:names:tc:SAML:2.0:attrname-format:basic", Values: bigValues(400, "c01")})
+	spec.Users = append(spec.Users, big) // a record whose response does not fit a redirect URL of a few kilobytes
 	c := C01Case{Spec: spec}
 	n := rapid.IntRange(6, 40).Draw(t, "nops")
 	for i := 0; i < n; i++ {
@@ -66,13 +70,13 @@ func genC01Case(t *rapid.T) C01Case {
 		case "seed":
 			sp := rapid.IntRange(0, 2).Draw(t, "sp")
 			done := rapid.IntRange(0, 2).Draw(t, "done") == 0
-			user := rapid.SampledFrom([]string{"", "uid-0", "uid-1", "uid-unknown"}).Draw(t, "user")
+			user := rapid.SampledFrom([]string{"", "uid-0", "uid-1", "uid-unknown", "uid-big"}).Draw(t, "user")
 			if done && user == "" {
 				user = "uid-0"
 			}
 			op.Seed = &world.RequestSpec{
 				ID: rapid.SampledFrom(c01SeedIDs).Draw(t, "seedid"), AppID: fmt.Sprintf("app-%d", sp),
-				RelayState:    rapid.SampledFrom(relayStates[1:]).Draw(t, "relay"),
+				RelayState:    rapid.SampledFrom(append(relayStates[1:], bigString(9000, "bigrelay-"))).Draw(t, "relay"),
 				ACS:           rapid.SampledFrom([]string{fmt.Sprintf("https://sp%d.example/acs/post", sp), "", "https://elsewhere.example/acs?x=1&y=2"}).Draw(t, "acs"),
 				Binding:       rapid.SampledFrom([]string{world.BindPost, world.BindRedirect, world.BindPost, world.BindRedirect, world.BindArtifact, ""}).Draw(t, "binding"),
 				AuthRequestID: "_orig-" + fmt.Sprint(i), UserID: user, Done: done,
@@ -82,12 +86,15 @@ func genC01Case(t *rapid.T) C01Case {
 			}
 		case "complete":
 			op.Ref = rapid.IntRange(0, 50).Draw(t, "ref")
-			op.User = rapid.SampledFrom([]string{"uid-0", "uid-1", "uid-0", "uid-1", "uid-unknown"}).Draw(t, "user")
+			op.User = rapid.SampledFrom([]string{"uid-0", "uid-1", "uid-0", "uid-1", "uid-unknown", "uid-big"}).Draw(t, "user")
 		case "fault":
-			op.FaultOp = rapid.SampledFrom([]string{"SetUserinfoWithUserID", "GetResponseSigningKey", "GetEntityIDByAppID", "AuthRequestByID"}).Draw(t, "faultop")
-			op.FaultKind = "error"
+			op.FaultOp = rapid.SampledFrom([]string{"SetUserinfoWithUserID", "SetUserinfoWithUserID", "GetResponseSigningKey", "GetEntityIDByAppID", "AuthRequestByID"}).Draw(t, "faultop")
+			op.FaultKind = rapid.SampledFrom([]string{"error", "error", "errval"}).Draw(t, "faultkind0")
+			if op.FaultOp == "SetUserinfoWithUserID" {
+				op.FaultKind = rapid.SampledFrom([]string{"error", "partial", "partial"}).Draw(t, "faultkind1")
+			}
 			if op.FaultOp == "GetResponseSigningKey" {
-				op.FaultKind = rapid.SampledFrom([]string{"error", "nil", "nokey", "nocert", "emptycert", "mismatch", "mismatch"}).Draw(t, "faultkind")
+				op.FaultKind = rapid.SampledFrom([]string{"error", "nil", "nokey", "nocert", "emptycert", "mismatch", "mismatch", "errval"}).Draw(t, "faultkind")
 			}
 		case "callback":
 			op.Ref = rapid.IntRange(0, 50).Draw(t, "ref")
